@@ -450,6 +450,39 @@ def explore(ctx, n_wf, n_near, n_raw, n_esc, corpus_lines=()):
                 kept.append(pm); poke_tags()
             except Exception:
                 pass
+        if i % 4 == 1 and l.startswith('@'):
+            # directed aliasing probe: parse a tagged line, change the message's tags in place (what
+            # takeMsg's label / _makeReply's +draft/reply do to copies that share the dict), then parse
+            # the same line and another line with the same tag string again
+            try:
+                out0, pm = impl_parse(ircmsgs, l)
+                if pm is not None:
+                    cp = ircmsgs.IrcMsg(msg=pm)
+                    for mm in (pm, cp):
+                        try:
+                            mm.server_tags['label'] = 'poked'
+                            mm.server_tags.pop(next(iter(mm.server_tags)), None)
+                        except Exception:
+                            pass
+                    out1, _ = impl_parse(ircmsgs, l)
+                    same = (out1 == out0)
+                    cases.append(Case({'op': 'reparse-after-poke', 'line': l}, oracle_ok=same, kind='determinism', tags=('reparse-after-poke',),
+                                      oracle_msg='' if same else 'line %r parsed to %s, then after the first message\'s tags were changed in place the same line parsed to %s (messages share state)' % (l, out0, out1)))
+                    sp = l.find(' ')
+                    if sp > 0:
+                        l2 = l[:sp] + ' :n!u@h PING :x'
+                        o2a, m2a = impl_parse(ircmsgs, l2)
+                        if m2a is not None:
+                            try:
+                                m2a.server_tags['x-poked'] = '1'
+                            except Exception:
+                                pass
+                            o2b, _ = impl_parse(ircmsgs, l2)
+                            same = (o2a == o2b)
+                            cases.append(Case({'op': 'reparse-after-poke', 'line': l2}, oracle_ok=same, kind='determinism', tags=('reparse-after-poke',),
+                                              oracle_msg='' if same else 'line %r parsed to %s, then after an in-place tag change on that message to %s' % (l2, o2a, o2b)))
+            except Exception:
+                pass
         if i % 5 == 2 and seen:
             # a message is determined by its line: parsing an earlier line again, after other messages
             # were built / tagged in place, must give the same message
